@@ -6,6 +6,7 @@ import (
 	"os"
 	"path/filepath"
 	"sort"
+	"strings"
 	"testing"
 
 	"pgregory.net/rapid"
@@ -246,6 +247,28 @@ func (o *c16) End(x *hctx) string {
 						break
 					}
 				}
+				// ... and calls on what was there before behave as ever: a populated directory of the
+				// tape is renamed as a whole
+				mvFrom, mvTo := "", fmt.Sprintf("/zz-moved-%d", n)
+				if wrote {
+					if mvFrom = c16PopulatedDir(ref, n); mvFrom != "" {
+						res := r.Do(hist.Step{Op: "rename", Path: mvFrom, Path2: mvTo})
+						if res.Hang != nil {
+							failf(x.f, "%s: follow-up rename of %s: %s", what, mvFrom, res.Hang.Detail)
+						}
+						if res.Err != nil {
+							w.Close()
+							return fmt.Sprintf("%s: Rename(%q, %q) of a directory that was on the tape failed after opening: %v", what, mvFrom, mvTo, res.Err)
+						}
+						live.S.Class("followup-renamed-populated-directory")
+					}
+				}
+				remap := func(p string) string {
+					if mvFrom != "" && (p == mvFrom || strings.HasPrefix(p, mvFrom+"/")) {
+						return mvTo + p[len(mvFrom):]
+					}
+					return p
+				}
 				if wrote {
 					data, err := observe.ReadAll(hist.Call, w.FS, name)
 					checkObs(x.f, hangOnly(err), "read back")
@@ -267,9 +290,15 @@ func (o *c16) End(x *hctx) string {
 						if e.ReadErr != "" {
 							continue // the entry of a torn record never had complete content
 						}
-						if g, ok := rb.Get(e.Path); !ok || g.SHA != e.SHA || g.Kind != e.Kind {
+						if g, ok := rb.Get(remap(e.Path)); !ok || g.SHA != e.SHA || g.Kind != e.Kind {
 							w.Close()
-							return fmt.Sprintf("%s: after writing through the opened instance a rebuild no longer shows %s as before", what, e.Path)
+							return fmt.Sprintf("%s: after writing through the opened instance a rebuild no longer shows %s as before (expected at %s)", what, e.Path, remap(e.Path))
+						}
+						if mvFrom != "" && remap(e.Path) != e.Path {
+							if _, ok := rb.Get(e.Path); ok {
+								w.Close()
+								return fmt.Sprintf("%s: %s is still there after its directory %s was renamed to %s", what, e.Path, mvFrom, mvTo)
+							}
 						}
 					}
 				}
@@ -281,6 +310,40 @@ func (o *c16) End(x *hctx) string {
 		}
 	}
 	return ""
+}
+
+// c16PopulatedDir picks a directory of the reference tree that has entries below it and
+// whose subtree is free of symbolic links and unreadable (torn) entries ("" if there is none;
+// trees with links anywhere are left alone: findings F-32/F-35).
+func c16PopulatedDir(ref *observe.Snap, n int) string {
+	var c []string
+	for _, e := range ref.Entries {
+		if e.Kind == "link" {
+			return ""
+		}
+	}
+	for _, d := range ref.Entries {
+		if d.Kind != "dir" || d.Path == "/" {
+			continue
+		}
+		kids, ok := 0, true
+		for _, e := range ref.Entries {
+			if strings.HasPrefix(e.Path, d.Path+"/") {
+				kids++
+				if e.ReadErr != "" {
+					ok = false
+				}
+			}
+		}
+		if kids > 0 && ok {
+			c = append(c, d.Path)
+		}
+	}
+	if len(c) == 0 {
+		return ""
+	}
+	sort.Strings(c)
+	return c[n%len(c)]
 }
 
 func (o *c16) Nontrivial(x *hctx) bool { return o.points >= 3 && (o.nontriv >= 1 || o.points >= 6) }
